@@ -132,7 +132,7 @@ Qed.
 
 Section Value.
   Variables (s : bytes) (m : vmetrics).
-  Hypothesis Hm : vmetrics_of true s = WOk m.
+  Hypothesis Hm : vmetrics_of s = m.
   Hypothesis Hu : utf8_valid_b s = true.
 
   Lemma vm_nl : vm_newline m = false -> forallb (fun b => negb (byte_eqb b x0a)) s = true.
@@ -218,8 +218,8 @@ Theorem value_styles_rt s st t r p d :
   utf8_valid_b s = true -> write_string st s = Some t -> no_quote_head r ->
   string_ (mkIn (t ++ r) p d) = Ok s (after t r p d).
 Proof.
-  intros Hu H Hr. unfold write_string in H. destruct (vmetrics_of true s) as [m|] eqn:Hm; [|discriminate].
-  apply (rt_write_string_m s m Hm Hu st); assumption.
+  intros Hu H Hr. unfold write_string in H.
+  apply (rt_write_string_m s (vmetrics_of s) eq_refl Hu st); assumption.
 Qed.
 
 (* ---- value: the string token as a value ------------------------------------------------------------ *)
@@ -289,8 +289,8 @@ Proof.
   - unfold new_input. rewrite app_nil_r in Hs. rewrite Hs. unfold after. rewrite N.add_0_l. reflexivity.
   - unfold parse_value_raw. rewrite (parse_all_ok value_ t (string_value s t 0)); [reflexivity|].
     apply value_of_string; [|exact Hs].
-    unfold write_string in H. destruct (vmetrics_of true s) as [m|]; [|discriminate].
-    apply (quote_headed_token s m st t H).
+    unfold write_string in H.
+    apply (quote_headed_token s (vmetrics_of s) st t H).
 Qed.
 
 (* ---- keys --------------------------------------------------------------------------------------- *)
@@ -377,15 +377,18 @@ Proof.
   - unfold parse_key. rewrite (parse_all_ok simple_key t (key_result t s 0)); [reflexivity|exact Hs].
 Qed.
 
-(* ---- a default style always exists (release arithmetic) ------------------------------------------- *)
+(* ---- a default style always exists ---------------------------------------------------------------- *)
 Theorem default_total s : write_string StDefault s <> None /\ write_key KDefault s <> None.
 Proof.
   split.
-  - unfold write_string, vmetrics_of. destruct (vm_total s 0%N 0%N (mkVM 0 0 false false false)) as [m Hm].
-    rewrite Hm. discriminate.
+  - unfold write_string. discriminate.
   - discriminate.
 Qed.
 
-(* ---- the debug-build overflow of the u8 run counters ------------------------------------------------ *)
-Theorem overflow_witness : vmetrics_of false (repeat x27 256) = WOverflow.
-Proof. vm_compute. reflexivity. Qed.
+(* ---- the u8 run counters saturate at 255 (before repo commit 245f548 they overflowed: a panic in a
+   build with overflow checks) ---------------------------------------------------------------------- *)
+Theorem counters_saturate : forall cur hit, (cur <= 255)%N -> (qnext cur hit <= 255)%N.
+Proof. intros cur hit H. unfold qnext. destruct hit; [|lia]. destruct (cur =? 255)%N eqn:E; lia. Qed.
+Theorem saturation_witness :
+  max_seq_single_quotes (vmetrics_of (repeat x27 256)) = 255%N /\ max_seq_single_quotes (vmetrics_of (repeat x27 300)) = 255%N.
+Proof. vm_compute. auto. Qed.
